@@ -6,6 +6,8 @@
 //   sincos <turn>                         -> <sin> <cos>     (sincos(Turn): sincospi(2 turn))
 //   simplify <tol> <+|-> <tag> <data..>   -> <+|-> <tag> <data..>   (RecursiveSimplifier)
 //   xform <tag> <data..> | <r00..r22 tx ty tz>  -> <tag> <data..>   (SurfaceTransformer)
+//   softeq <rel> <abs> <surfA> | <surfB>        -> <soft 0|1> <exact 0|1>   (SoftSurfaceEqual)
+//   build2 <tol> <xf1> <region1> / <xf2> <region2> -> ok nodes.. | nodes.. | surfs..  (ONE unit)
 //   build <tol> <n | t tx ty tz | x r00..r22 tx ty tz> <region> -> ok nodes k ; <s> <id> <surf> ... | surfs n ; ... | L .. G .. M ..
 //   e2e <tol> <world hw> <f0|f1> <object> | x y z ...  -> ok <one char per probe: m b F x f>
 //        (f1: two filler material boxes at ±0.85 world so that the BIH gets inner nodes)
@@ -56,6 +58,7 @@
 #include "orange/orangeinp/detail/IntersectSurfaceState.hh"
 #include "orange/orangeinp/detail/SenseEvaluator.hh"
 #include "orange/surf/RecursiveSimplifier.hh"
+#include "orange/surf/SoftSurfaceEqual.hh"
 #include "orange/surf/VariantSurface.hh"
 #include "orange/transform/VariantTransform.hh"
 
@@ -450,6 +453,102 @@ static string do_member(double tol, VariantTransform const& vt, RegionSpec const
     return out;
 }
 
+// two regions built one after the other against ONE unit builder (shared surface inserter)
+static string show_nodes(orangeinp::detail::CsgUnit const& unit,
+                         std::vector<orangeinp::NodeId> const& nodes)
+{
+    using namespace orangeinp;
+    string out = "nodes " + std::to_string(nodes.size());
+    for (NodeId n : nodes)
+    {
+        Node const& node = unit.tree[n];
+        Sense s = Sense::outside;
+        NodeId sn = n;
+        if (auto* neg = std::get_if<Negated>(&node))
+        {
+            s = Sense::inside;
+            sn = neg->node;
+        }
+        auto* surf = std::get_if<orangeinp::Surface>(&unit.tree[sn]);
+        if (!surf)
+        {
+            out += " ; ? node";
+            continue;
+        }
+        out += string(" ; ") + sense_char(s) + " " + std::to_string(surf->id.unchecked_get()) + " "
+               + show_surf(unit.surfaces[surf->id.unchecked_get()]);
+    }
+    return out;
+}
+
+static string do_build2(double tol, VariantTransform const& vt1, RegionSpec const& s1,
+                        VariantTransform const& vt2, RegionSpec const& s2)
+{
+    using namespace orangeinp;
+    oid::CsgUnit unit;
+    oid::CsgUnitBuilder ub{&unit, Tolerance<>::from_relative(tol), BBox::from_infinite()};
+    string out = "ok";
+    VariantTransform const* vts[] = {&vt1, &vt2};
+    RegionSpec const* specs[] = {&s1, &s2};
+    for (int k = 0; k < 2; ++k)
+    {
+        oid::IntersectSurfaceState css;
+        css.transform = vts[k];
+        css.object_name = k == 0 ? "a" : "b";
+        css.make_face_name = {};
+        auto region = make_region(*specs[k]);
+        IntersectSurfaceBuilder insert_surface{&ub, &css};
+        region->build(insert_surface);
+        out += " " + show_nodes(unit, css.nodes) + " |";
+    }
+    out += " surfs " + std::to_string(unit.surfaces.size());
+    for (auto const& vs : unit.surfaces)
+        out += " ; " + show_surf(vs);
+    return out;
+}
+
+// SoftSurfaceEqual / ExactSurfaceEqual on two surfaces of the same class ("0 0" otherwise)
+static string do_softeq(double rel, double abs, VariantSurface const& a, VariantSurface const& b)
+{
+    Tolerance<> t;
+    t.rel = rel;
+    t.abs = abs;
+    SoftSurfaceEqual soft{t};
+    ExactSurfaceEqual exact;
+    return std::visit(
+        [&](auto const& sa) -> string {
+            using S = std::decay_t<decltype(sa)>;
+            if (auto* sb = std::get_if<S>(&b))
+                return string(soft(sa, *sb) ? "1" : "0") + " " + (exact(sa, *sb) ? "1" : "0");
+            return "0 0";
+        },
+        a);
+}
+
+static bool parse_xf(Parser& p, VariantTransform* vt)
+{
+    string tk = p.next();
+    if (tk == "n")
+        *vt = NoTransformation{};
+    else if (tk == "t")
+    {
+        double x = p.real(), y = p.real(), z = p.real();
+        *vt = Translation{Real3{x, y, z}};
+    }
+    else if (tk == "x")
+    {
+        double d[12];
+        for (double& v : d)
+            v = p.real();
+        if (!p.ok)
+            return false;
+        *vt = Transformation{Span<double const, 12>{d, 12}};
+    }
+    else
+        return false;
+    return p.ok;
+}
+
 //---------------------------------------------------------------------------//
 // simplify
 template<class S>
@@ -821,6 +920,53 @@ static string handle(Words const& w)
         double s, c;
         sincos(Turn{t}, &s, &c);
         return vh::hexd(s) + " " + vh::hexd(c);
+    }
+    if (op == "softeq")
+    {
+        // softeq <rel> <abs> <tagA> <dataA..> | <tagB> <dataB..>  -> <soft 0|1> <exact 0|1>
+        double rel = p.real(), abs = p.real();
+        if (!p.ok || !(rel > 0) || !(abs > 0))
+            return "bad-op";
+        std::size_t bar = p.i;
+        while (bar < w.size() && w[bar] != "|")
+            ++bar;
+        if (bar >= w.size() || bar == p.i || bar + 1 >= w.size())
+            return "bad-op";
+        Words aw(w.begin() + p.i + 1, w.begin() + bar), bw(w.begin() + bar + 2, w.end());
+        Parser ap{aw, 0}, bp{bw, 0};
+        vecd da, db;
+        while (ap.ok && ap.i < aw.size())
+            da.push_back(ap.real());
+        while (bp.ok && bp.i < bw.size())
+            db.push_back(bp.real());
+        std::optional<VariantSurface> oa, ob;
+        if (!ap.ok || !bp.ok || !parse_surface(w[p.i], da, &oa) || !parse_surface(w[bar + 1], db, &ob))
+            return "bad-op";
+        VariantSurface const& sa = *oa;
+        VariantSurface const& sb = *ob;
+        return forked([&] { return do_softeq(rel, abs, sa, sb); });
+    }
+    if (op == "build2")
+    {
+        // build2 <tol> <xf1> <region1> / <xf2> <region2>   (xf := n | t x y z | x r00..tz)
+        double tol;
+        if (!parse_tol(p, &tol))
+            return "bad-op";
+        std::size_t slash = p.i;
+        while (slash < w.size() && w[slash] != "/")
+            ++slash;
+        if (slash >= w.size())
+            return "bad-op";
+        Words w1(w.begin() + p.i, w.begin() + slash), w2(w.begin() + slash + 1, w.end());
+        Parser p1{w1, 0}, p2{w2, 0};
+        VariantTransform vt1 = NoTransformation{}, vt2 = NoTransformation{};
+        RegionSpec s1, s2;
+        if (!parse_xf(p1, &vt1) || !parse_region(p1, &s1) || !p1.done() || !parse_xf(p2, &vt2)
+            || !parse_region(p2, &s2) || !p2.done())
+            return "bad-op";
+        if (!s1.oracle_ok || !s2.oracle_ok)
+            return "oracle-mismatch";
+        return forked([&] { return do_build2(tol, vt1, s1, vt2, s2); });
     }
     if (op == "simplify")
     {
